@@ -34,6 +34,7 @@ impl Harness for Sup {
 			mon::Set::C06 => {
 				v.extend(scen::core_family(tier));
 				v.extend(scen::order_family(tier).into_iter().filter(|(s, _)| s.script.iter().any(|(o, _)| o.is_graceful())));
+				v.extend(scen::sigmap_family(tier));
 			}
 			mon::Set::C07 => {
 				v.extend(scen::core_family(tier));
